@@ -415,7 +415,7 @@ func Main(args []string) int {
 		}
 		return r.Finish("replay", 0, false)
 	}
-	maxLen := r.N(6, 8)
+	maxLen := r.N(7, 8)
 	enumerate(maxLen, r)
 	randomStrings(r, r.N(200000, 3000000))
 	parserPart(r, r.N(1500, 20000))
